@@ -56,9 +56,14 @@ def run_sv(spec, cfg, observables=None, noise=None, seq=None):
     n = len(spec["coords"])
     kw = {}
     if cfg.get("init"):
-        kw["initial_state"] = sv.StateVector(
-            torch.tensor(amplitudes_state(n, cfg["init"], cfg.get("seed", 0)), dtype=torch.complex128), gpu=False
-        )
+        vec = amplitudes_state(n, cfg["init"], cfg.get("seed", 0))
+        if cfg.get("init_via"):
+            # the same state given through the public amplitude dictionary, with the two-level basis spelled in either order
+            eig = ("r", "g") if cfg["init_via"] == "amplitudes_rg" else ["g", "r"]
+            amps = {np.binary_repr(i, n).replace("1", "r").replace("0", "g"): complex(a) for i, a in enumerate(vec) if abs(a) > 0}
+            kw["initial_state"] = sv.StateVector.from_state_amplitudes(eigenstates=eig, amplitudes=amps)
+        else:
+            kw["initial_state"] = sv.StateVector(torch.tensor(vec, dtype=torch.complex128), gpu=False)
     if cfg.get("interaction_matrix") is not None:
         kw["interaction_matrix"] = cfg["interaction_matrix"]
     if noise is not None:
@@ -116,7 +121,7 @@ def run_mps(spec, cfg, observables=None, noise=None, seq=None):
     n = len(spec["coords"])
     kw = {}
     if cfg.get("init"):
-        kw["initial_state"] = mps_initial_state(n, cfg["init"], cfg.get("seed", 0))
+        kw["initial_state"] = mps_initial_state(n, cfg["init"], cfg.get("seed", 0), eigenstates=("g", "r") if cfg.get("init_via") == "amplitudes_gr" else ("r", "g"))
     if cfg.get("interaction_matrix") is not None:
         kw["interaction_matrix"] = cfg["interaction_matrix"]
     if noise is not None:
@@ -140,7 +145,7 @@ def run_mps(spec, cfg, observables=None, noise=None, seq=None):
         dt=cfg.get("dt", 10),
         precision=cfg.get("precision", 1e-8),
         with_modulation=cfg.get("with_modulation", False),
-        observables=observables if observables is not None else mps_observables(cfg["eval"], cfg.get("with_state", False)),
+        observables=observables if observables is not None else mps_observables(cfg["eval"], cfg.get("with_state", False))[:: -1 if cfg.get("obs_order") == "reversed" else 1],
         optimize_qubit_ordering=cfg.get("ordering", False),
         log_level=logging.CRITICAL,
         num_gpus_to_use=0,
